@@ -58,6 +58,16 @@ PathTab ==
    ptt  |-> [text |-> "/tt",          segs |-> <<Lit("tt")>>],
    psp  |-> [text |-> "\"/s p\"",     segs |-> <<Lit("s p")>>],         \* a quoted path with a blank: refused (BlankPaths)
    pbad8 |-> [text |-> "/b\\xFF",     segs |-> <<Lit("b?")>>],          \* the harness writes the byte 0xFF: not UTF-8, refused
+   pdot  |-> [text |-> "/.",           segs |-> <<Lit(".")>>],                            \* "." segments: skipped by the automatic tag
+   pdotx |-> [text |-> "/./x",         segs |-> <<Lit("."), Lit("x")>>],
+   pdd   |-> [text |-> "/./.",         segs |-> <<Lit("."), Lit(".")>>],
+   pat   |-> [text |-> "/u/{@id}",     segs |-> <<Lit("u"), Par("@id")>>],                 \* a parameter named like a user type
+   pex   |-> [text |-> "/v/{c~d}/{x$y}", segs |-> <<Lit("v"), Par("c~d"), Par("x$y")>>],    \* parameter names beyond letters and digits
+   pnb   |-> [text |-> "/nb",          segs |-> <<Lit("nb")>>],
+   pdupx |-> [text |-> "/dx/{c~d}/x/{c~d}", segs |-> <<Lit("dx"), Par("c~d"), Lit("x"), Par("c~d")>>],
+   pdupu |-> [text |-> "/du/{\\xD0\\xB8}/u/{\\xD0\\xB8}", segs |-> <<Lit("du"), Par("\\xD0\\xB8"), Lit("u"), Par("\\xD0\\xB8")>>],   \* a Cyrillic name (UTF-8 bytes written by the harness)
+   psx1  |-> [text |-> "/sx/{a~b}",    segs |-> <<Lit("sx"), Par("a~b")>>],
+   psx2  |-> [text |-> "/sx/{c$d}",    segs |-> <<Lit("sx"), Par("c$d")>>],
    pempty |-> [text |-> "/e/{}",      segs |-> <<Lit("e"), Par("")>>]]
 PathIds == DOMAIN PathTab
 BlankPaths == {"psp"}     \* a blank separates the fields of an interaction id; a path may not contain one
@@ -93,17 +103,26 @@ BodyTab ==
    objun  |-> [text |-> "{\"a\": @t1|@t2}",       kind |-> "schema", root |-> "object", rtype |-> "object",  uses |-> {"@t1", "@t2"}, inh |-> {}, enums |-> {}, keys |-> {"a"}, props |-> <<[key |-> "a", tt |-> "reference", ty |-> "mixed"]>>],
    objall |-> [text |-> "{ // {allOf: \"@t5\"}\n  \"z\": 1\n}", kind |-> "schema", root |-> "object", rtype |-> "object", uses |-> {"@t5"}, inh |-> {"@t1", "@t2"}, enums |-> {}, keys |-> {"a", "z"},
                props |-> <<[key |-> "a", tt |-> "reference", ty |-> "mixed"], [key |-> "z", tt |-> "number", ty |-> "integer"]>>],
+   nC     |-> [text |-> "{\"m\": 3}",            kind |-> "schema", root |-> "object", rtype |-> "object",  uses |-> {}, inh |-> {}, enums |-> {}, keys |-> {"m"}, props |-> <<[key |-> "m", tt |-> "number", ty |-> "integer"]>>],
+   nB     |-> [text |-> "{\n  \"n\": { // {allOf: \"@nC\"}\n    \"b\": 2\n  }\n}", kind |-> "schema", root |-> "object", rtype |-> "object", uses |-> {"@nC"}, inh |-> {}, enums |-> {}, keys |-> {"n"},
+               props |-> <<[key |-> "n", tt |-> "object", ty |-> "object"]>>],      \* allOf on a nested object: its inherited properties lie below the first level
+   nA     |-> [text |-> "{ // {allOf: \"@nB\"}\n  \"a\": 1\n}", kind |-> "schema", root |-> "object", rtype |-> "object", uses |-> {"@nB"}, inh |-> {}, enums |-> {}, keys |-> {"n", "a"},
+               props |-> <<[key |-> "n", tt |-> "object", ty |-> "object"], [key |-> "a", tt |-> "number", ty |-> "integer"]>>],
    pxor   |-> [text |-> "{\n  \"x\": 1 // {or: [{type: \"integer\"}, {type: \"string\"}]}\n}", kind |-> "schema", root |-> "object", rtype |-> "object", uses |-> {}, inh |-> {}, enums |-> {}, keys |-> {"x"}, props |-> <<[key |-> "x", tt |-> "number", ty |-> "mixed"]>>],
+   pidu   |-> [text |-> "{\"id\": @t1 | @nope}", kind |-> "schema", root |-> "object", rtype |-> "object", uses |-> {"@t1", "@nope"}, inh |-> {}, enums |-> {}, keys |-> {"id"}, props |-> <<[key |-> "id", tt |-> "reference", ty |-> "mixed"]>>],   \* a union that names an undefined type: found only when the schema of the path variables is built
    py     |-> [text |-> "{\"y\": 1}",            kind |-> "schema", root |-> "object", rtype |-> "object",  uses |-> {}, inh |-> {}, enums |-> {}, keys |-> {"y"}, props |-> <<[key |-> "y", tt |-> "number", ty |-> "integer"]>>],
    px     |-> [text |-> "{\"x\": 1}",            kind |-> "schema", root |-> "object", rtype |-> "object",  uses |-> {}, inh |-> {}, enums |-> {}, keys |-> {"x"}, props |-> <<[key |-> "x", tt |-> "number", ty |-> "integer"]>>],
    en     |-> [text |-> "[1, \"a\"]",            kind |-> "enum",   root |-> "array",  rtype |-> "array",   uses |-> {}, inh |-> {}, enums |-> {}, keys |-> {}, props |-> <<>>],
    d1     |-> [text |-> "text one",              kind |-> "text",   root |-> "",       rtype |-> "",        uses |-> {}, inh |-> {}, enums |-> {}, keys |-> {}, props |-> <<>>],
+   dbad   |-> [text |-> "( a list\n)",            kind |-> "textbad", root |-> "",      rtype |-> "",        uses |-> {}, inh |-> {}, enums |-> {}, keys |-> {}, props |-> <<>>],   \* a wrongly parenthesised text: the error stands on the text
    d3     |-> [text |-> "line one\nline two",    kind |-> "text",   root |-> "",       rtype |-> "",        uses |-> {}, inh |-> {}, enums |-> {}, keys |-> {}, props |-> <<>>],
    d2     |-> [text |-> "text two",              kind |-> "text",   root |-> "",       rtype |-> "",        uses |-> {}, inh |-> {}, enums |-> {}, keys |-> {}, props |-> <<>>],
    rx2    |-> [text |-> "/[a-z]{4}/",            kind |-> "regex",  root |-> "",       rtype |-> "",        uses |-> {}, inh |-> {}, enums |-> {}, keys |-> {}, props |-> <<>>],
    objr7  |-> [text |-> "{\"id\": @t7}",         kind |-> "schema", root |-> "object", rtype |-> "object",  uses |-> {"@t7"}, inh |-> {}, enums |-> {}, keys |-> {"id"}, props |-> <<[key |-> "id", tt |-> "reference", ty |-> "@t7"]>>],
    rx     |-> [text |-> "/ab/",                  kind |-> "regex",  root |-> "",       rtype |-> "",        uses |-> {}, inh |-> {}, enums |-> {}, keys |-> {}, props |-> <<>>]]
 BodyIds == DOMAIN BodyTab
+\* pool bodies whose type reference stands on the second line of the text (an error about it is located there)
+RefOnSecondLine == {"nB"}
 
 SetToSeq(S) == CHOOSE f \in [1..Cardinality(S) -> S] : \A i, j \in 1..Cardinality(S) : i # j => f[i] # f[j]
 PoolsJson == [paths |-> [x \in PathIds |-> PathTab[x].text], bodies |-> [x \in BodyIds |-> BodyTab[x].text]]
